@@ -610,6 +610,16 @@ class Audit:
             for ak, reason in self.allow.items():
                 if key.startswith(ak):
                     return 'allow', reason
+        if f.kind == 'Closure':
+            # a closure body is part of the function it is written in (a loop body turned into `.any(|i| ..)`): the function's
+            # entries cover it
+            for key in keys:
+                head = key.split('/')[0]
+                okey = self._fn_of_key(key) + key[len(head):]
+                if okey != key:
+                    for ak, reason in self.allow.items():
+                        if okey.startswith(ak):
+                            return 'allow', reason + ' (in a closure of that function)'
         key = keys[0]
         # orphan entries: same impl type / module, same construct
         fn = self._fn_of_key(key)
